@@ -6,6 +6,8 @@ CONSTANTS
   Shapes = {"", "H"}
   Mod = 1
   NCalls = 6
+  NProg = 1
+  Sample = FALSE
   Wide = FALSE
   Dump = TRUE
 INVARIANT NoDangling
